@@ -41,6 +41,10 @@ impl LocalKey {
         let (ek, n2) = aead_key
             .split_last_chunk::<16>()
             .ok_or(PasetoError::CryptoError)?;
+        #[cfg(paseto_rs_verif)]
+        let verif_iv = paseto_core::verif::iv(*n2);
+        #[cfg(paseto_rs_verif)]
+        let n2 = &verif_iv;
         let ak = kdf(&self.0, "paseto-auth-key-for-aead", nonce)?;
 
         let key = UnboundCipherKey::new(&AES_256, ek).map_err(|_| PasetoError::CryptoError)?;
